@@ -12,7 +12,7 @@ use crate::srv::*;
 use crate::tok::*;
 use ferrous::storage::StorageEngine;
 use std::collections::{BTreeMap, BTreeSet};
-use std::time::{Duration, Instant};
+use std::time::Duration;
 
 pub const PATTERNS: &[&[u8]] = &[b"*", b"k*", b"k0?", b"*1", b"[ab]*", b"k[0-1]*", b"[^k]*", b"a", b"zz*", b"", b"k\\0*", b"*:*", b"k[", b"**", b"?", b"k*5", b"[a-c]"];
 pub const TYPES: &[&[u8]] = &[b"string", b"set", b"hash", b"zset", b"list", b"STRING", b"bogus", b"stream", b""];
@@ -26,7 +26,7 @@ fn key_pool() -> Vec<Vec<u8>> {
 }
 
 // ---------------------------------------------------------------- in-process runner
-struct Eng { e: std::sync::Arc<StorageEngine>, t0: Instant, logical: i128, last: i128, tally: BTreeMap<String, u64> }
+struct Eng { e: std::sync::Arc<StorageEngine>, logical: i128, last: i128, tally: BTreeMap<String, u64> }
 
 fn names_of(op: &[Tok], from: usize) -> Vec<Vec<u8>> { op[from..].iter().filter_map(|t| match t { Tok::B(v) => Some(v.clone()), _ => None }).collect() }
 fn cnt<T, E>(r: Result<T, E>, f: impl Fn(T) -> i64) -> Vec<Tok> { match r { Ok(x) => vec![i(f(x))], Err(_) => vec![b("WRONGTYPE")] } }
@@ -36,9 +36,10 @@ fn eng_op(st: &mut Eng, op: &[Tok]) -> (Vec<Tok>, Vec<Tok>) {
     let name = tok_bytes(&op[0]).to_vec();
     let mut o = op.to_vec();
     if name == b"SLEEP" {
+        // always the full duration in real time: whatever the model considers expired (logical time)
+        // has then expired in the implementation too, however slowly the earlier ops ran
         st.logical += tok_int(&op[1]);
-        let target = Duration::from_millis(st.logical as u64 + 8);
-        let el = st.t0.elapsed(); if el < target { std::thread::sleep(target - el); }
+        std::thread::sleep(Duration::from_millis(tok_int(&op[1]) as u64 + 8));
         return (o, vec![]);
     }
     o[1] = Tok::I(st.logical);
@@ -121,29 +122,82 @@ fn scratch_dir() -> std::path::PathBuf {
     build.join("scratch").join(format!("c19_{}_{}", std::process::id(), N.fetch_add(1, std::sync::atomic::Ordering::SeqCst)))
 }
 
-fn run_tcp(c: &Case) -> Case {
-    let o = SrvOpts { dir: Some(scratch_dir()), ..SrvOpts::default() };
-    let mut r = Runner::new(&o);
+/// Does the LISTEN socket on 127.0.0.1:port belong to process `pid`?  (/proc/net/tcp + /proc/pid/fd)
+fn owns_port(pid: u32, port: u16) -> bool {
+    let want = format!("0100007F:{:04X}", port);
+    let tcp = match std::fs::read_to_string("/proc/net/tcp") { Ok(t) => t, Err(_) => return true };
+    for line in tcp.lines().skip(1) {
+        let f: Vec<&str> = line.split_whitespace().collect();
+        if f.len() > 9 && f[1] == want && f[3] == "0A" {
+            let link = format!("socket:[{}]", f[9]);
+            if let Ok(rd) = std::fs::read_dir(format!("/proc/{}/fd", pid)) {
+                for e in rd.flatten() { if let Ok(t) = std::fs::read_link(e.path()) { if t.to_string_lossy() == link { return true; } } }
+            }
+            return false;
+        }
+    }
+    false
+}
+
+/// Srv::start picks an ephemeral port and lets the child bind it afterwards; with many harness
+/// processes on one machine two servers can be given the same port and a client then talks to a
+/// foreign server.  Here: a port from a private range below the ephemeral one, derived from the pid,
+/// and the case starts only once the listening socket is verified to belong to our child.
+fn start_private(dir: std::path::PathBuf) -> Srv {
+    static K: std::sync::atomic::AtomicU64 = std::sync::atomic::AtomicU64::new(0);
+    for _ in 0..40 {
+        let k = K.fetch_add(1, std::sync::atomic::Ordering::SeqCst);
+        let port = (12000 + (std::process::id() as u64 * 13 + k * 7) % 18000) as u16;
+        std::fs::create_dir_all(&dir).unwrap();
+        let mut c = std::process::Command::new(std::env::current_exe().unwrap());
+        c.arg("serve").arg("--port").arg(port.to_string()).arg("--dir").arg(&dir)
+            .current_dir(&dir).stdin(std::process::Stdio::null()).stdout(std::process::Stdio::null()).stderr(std::process::Stdio::null());
+        let mut child = c.spawn().expect("spawn server");
+        let t0 = std::time::Instant::now();
+        loop {
+            if let Ok(Some(_)) = child.try_wait() { break; }
+            if owns_port(child.id(), port) && std::net::TcpStream::connect(("127.0.0.1", port)).is_ok() { return Srv { child, port, dir }; }
+            if t0.elapsed() > Duration::from_secs(10) { let _ = child.kill(); let _ = child.wait(); break; }
+            std::thread::sleep(Duration::from_millis(4));
+        }
+    }
+    panic!("could not start server");
+}
+
+fn run_tcp_once(c: &Case) -> (Case, bool) {
+    let mut r = Runner { srv: start_private(scratch_dir()), conns: std::collections::HashMap::new(), t0: std::time::Instant::now(), logical: 0, drift_bad: false };
     let mut out = Case { id: c.id.clone(), ops: vec![], outs: vec![] };
     let mut last: Vec<u8> = b"0".to_vec();
+    let mut infra = false;
     for op in &c.ops {
         let op2: Vec<Tok> = op.iter().map(|t| match t { Tok::B(v) if v == b"$CUR" => Tok::B(last.clone()), x => x.clone() }).collect();
         let (o2, res) = r.op(&op2);
+        if res.len() == 1 { if let Tok::B(w) = &res[0] { if [&b"TIMEOUT"[..], b"CLOSED", b"BADREPLY", b"NOCONN"].contains(&&w[..]) { infra = true; } } }
         // reply [5 2 3 <cursor> ...]: an array of two whose first element is a bulk string
         if res.len() >= 4 && res[0] == i(5) && res[1] == i(2) && res[2] == i(3) { if let Tok::B(cu) = &res[3] { last = cu.clone(); } }
         out.ops.push(o2); out.outs.push(res);
     }
     let drift = r.drift_bad;
     let alive = r.finish();
-    if !alive { out.ops.push(vec![b("ALIVE")]); out.outs.push(vec![i(0)]); }
+    if !alive { out.ops.push(vec![b("ALIVE")]); out.outs.push(vec![i(0)]); infra = true; }
     if drift { out.id = format!("{}-DISCARD", out.id); }
-    out
+    (out, infra)
+}
+
+/// No SCAN-family command can time out, close the connection or kill the server: such an outcome
+/// is an overloaded machine (or a lost port race) and the case is run again on a fresh server; if
+/// it persists it is reported as it is.
+fn run_tcp(c: &Case) -> Case {
+    let (out, infra) = run_tcp_once(c);
+    if !infra { return out; }
+    std::thread::sleep(Duration::from_millis(200));
+    run_tcp_once(c).0
 }
 
 pub fn run(c: &Case) -> Case {
     let tcp = c.ops.first().map_or(false, |o| o.first() == Some(&b("CONN")));
     if tcp { return run_tcp(c); }
-    let mut st = Eng { e: StorageEngine::new(), t0: Instant::now(), logical: 0, last: 0, tally: BTreeMap::new() };
+    let mut st = Eng { e: StorageEngine::new(), logical: 0, last: 0, tally: BTreeMap::new() };
     let mut r = Case { id: c.id.clone(), ops: vec![], outs: vec![] };
     for op in &c.ops {
         let res = std::panic::catch_unwind(std::panic::AssertUnwindSafe(|| eng_op(&mut st, op)));
